@@ -1,9 +1,134 @@
-//! stub
-use super::Ctx;
-use crate::engine::evidence::{Case, Report, Verdict};
-pub fn run(_ctx: &Ctx, _rep: &mut Report) {
-    crate::engine::monitor::machinery_fail("not implemented");
+//! C09 - more cards never weaken a hand: seven <= every six-subset <= every five-subset.
+//!
+//! Spaces: all 20,358,520 six-card hands with their six five-card sub-hands; all 133,784,560 seven-card hands
+//! with their seven six-card sub-hands (canonical slot order; sub-hands keep the relative order).
+//! No oracle: every value is produced by the crate (v7 = min_i v6_i, v6 = min_j v5_ij, hence v7 <= v6_i <= v5_ij);
+//! this guards the oracle-based checks against a shared blind spot.
+use super::hands::AnyHand;
+use super::{confirm, sample_json, Ctx};
+use crate::engine::enumerate::{combos_prefix, par_parts};
+use crate::engine::evidence::{Acc, Case, Report, Verdict};
+use crate::engine::monitor::{self, guard};
+use crate::oracle::cards::{deck, show_words};
+use std::time::Instant;
+
+fn without(w: &[u32], i: usize) -> Vec<u32> {
+    w.iter().enumerate().filter(|(k, _)| *k != i).map(|(_, x)| *x).collect()
 }
-pub fn judge(_case: &Case) -> Verdict {
-    Verdict::NotJudged("not implemented".into())
+
+/// Case kinds: "seven.min_of_sixes" [7 words], "six.min_of_fives" [6 words].
+pub fn judge(case: &Case) -> Verdict {
+    let w = case.w32s();
+    let n = match case.kind.as_str() {
+        "seven.min_of_sixes" => 7,
+        "six.min_of_fives" => 6,
+        _ => return Verdict::NotJudged("unknown kind".into()),
+    };
+    if w.len() != n || super::c01::distinct_cards(&w).is_none() {
+        return Verdict::NotJudged("not distinct real cards of the right count".into());
+    }
+    match guard(|| {
+        let v = AnyHand::from_words(&w).value().unwrap();
+        let subs: Vec<u16> = (0..n).map(|i| AnyHand::from_words(&without(&w, i)).value().unwrap()).collect();
+        (v, subs)
+    }) {
+        Err(p) => Verdict::Violated { class: format!("panic:{}", case.kind), expected: "values".into(), observed: format!("panic: {}", p) },
+        Ok((v, subs)) => {
+            let m = *subs.iter().min().unwrap();
+            if v == m {
+                Verdict::Holds
+            } else {
+                Verdict::Violated {
+                    class: format!("{}:{}", case.kind, if v > m { "bigger-hand-is-weaker-than-a-sub-hand" } else { "bigger-hand-is-stronger-than-all-sub-hands" }),
+                    expected: format!("value of [{}] = smallest value of its {} sub-hands = {}", show_words(&w), n, m),
+                    observed: format!("{} (sub-hand values, leaving out slot 1..{}: {:?})", v, n, subs),
+                }
+            }
+        }
+    }
+}
+
+fn space(ctx: &Ctx, rep: &mut Report, n: usize) {
+    let d = deck();
+    let kind_name = if n == 7 { "seven.min_of_sixes" } else { "six.min_of_fives" };
+    let kind = monitor::kind_id(kind_name);
+    let mut parts = Vec::new();
+    for a in 0..52usize {
+        for b in a + 1..52 {
+            if b + (n - 2) < 52 {
+                parts.push((a, b));
+            }
+        }
+    }
+    let t0 = Instant::now();
+    let accs = par_parts(parts.len(), |pi| {
+        let (a, b) = parts[pi];
+        let mut acc = Acc::new(8);
+        let mut w = vec![0u32; n];
+        let mut sub = vec![0u32; n - 1];
+        combos_prefix(52, n, &[a, b], &mut |idx| {
+            for i in 0..n {
+                w[i] = d[idx[i]].word();
+            }
+            let w64: Vec<u64> = w.iter().map(|x| *x as u64).collect();
+            monitor::beat(kind, &w64);
+            acc.cases += 1;
+            acc.calls += 1 + n as u64;
+            let r = guard(|| {
+                let v = AnyHand::from_words(&w).value().unwrap();
+                let mut m = u16::MAX;
+                let mut attain = 0;
+                for i in 0..n {
+                    let mut k = 0;
+                    for j in 0..n {
+                        if j != i {
+                            sub[k] = w[j];
+                            k += 1;
+                        }
+                    }
+                    let s = AnyHand::from_words(&sub).value().unwrap();
+                    if s < m {
+                        m = s;
+                        attain = 1;
+                    } else if s == m {
+                        attain += 1;
+                    }
+                }
+                (v, m, attain)
+            });
+            match r {
+                Ok((v, m, attain)) if v == m => {
+                    acc.hist[attain.min(7)] += 1;
+                    if attain == n - 5 {
+                        acc.nontrivial += 1; // exactly one five-card sub-hand is best: only the forced number of sub-hands attain the minimum
+                    }
+                }
+                _ => match confirm(judge, Case::w32(kind_name, &w)) {
+                    Some(v) => acc.violate(v),
+                    None => monitor::machinery_fail("C09 mismatch not reproduced"),
+                },
+            }
+            if acc.samples.is_empty() && (pi as u64 + ctx.seed) % 157 == 0 {
+                let subs: Vec<u16> = (0..n).map(|i| AnyHand::from_words(&without(&w, i)).value().unwrap()).collect();
+                acc.samples.push(sample_json(kind_name, &show_words(&w), &format!("value {:?}; sub-hand values {:?}", AnyHand::from_words(&w).value(), subs)));
+            }
+        });
+        acc
+    });
+    let acc = Acc::merged(accs);
+    for k in 1..=7 {
+        if acc.hist[k] > 0 {
+            rep.hist_add(&format!("{}:hands_where_{}_sub_hands_attain_the_minimum", kind_name, k), acc.hist[k]);
+        }
+    }
+    rep.guard(&format!("{}: hands with the forced minimum of {} decisive sub-hand(s) and hands with more tied sub-hands both occur", kind_name, n - 5), acc.viol_count > 0 || (acc.hist[n - 5] > 0 && acc.hist[n - 4] > 0 && acc.hist[..n - 5].iter().all(|x| *x == 0)), format!("{:?}", acc.hist));
+    rep.add_space(&format!("{}H with all {} sub-hands", n, n), &acc, t0, "canonical slot order; each sub-hand leaves out one slot");
+}
+
+pub fn run(ctx: &Ctx, rep: &mut Report) {
+    space(ctx, rep, 6);
+    space(ctx, rep, 7);
+    rep.rule = "distinct six- and seven-card hands; non-trivial = only the forced number of sub-hands (1 of 6, 2 of 7) attains the minimum, i.e. the best five-card hand is unique and every other sub-hand is strictly weaker".into();
+    rep.bound = "all six- and seven-card subsets in canonical slot order (slot-order independence is C02's)".into();
+    rep.assume("v7 <= v6_i and v6 <= v5_j follow from the two minimum equalities checked on every hand");
 }
